@@ -143,7 +143,8 @@ def real_groups(tier, seed):
             calls = []
             sizes = size_list(V, tier, rng) + ladder_sizes(V, tier, rng)[:: (1 if not quick else 4)]
             if quick:
-                sizes = sorted(set([1, V, V + 1, 2 * V + 3, sizes[-1]] + rng.sample(sizes, 3)))
+                # 4 and 9: the intrinsic specialisations _norm<float,4>, _norm<float,9>, _norm<double,4>, _norm<double,9>
+                sizes = sorted(set([1, 4, 9, V, V + 1, 2 * V + 3, sizes[-1]] + rng.sample(sizes, 3)))
             for n in sizes:
                 calls.append("rr::run_rsum<%s,%d>(%du);" % (t, n, ds + n))
             for m in range(1, 5 if quick else 9):
@@ -269,6 +270,32 @@ def ofail_key(f):
         return "QRSIGN determinant<QR> returns |det|: " + inp
     return None
 
+def static_coverage(tier, seed):
+    """what the generated box contains: per (isa, element size) the sizes per entry point, the residues n mod V hit, the
+    unroll-ladder stages entered, the helper functions and the ISAs / element types of the real-type runs"""
+    cov = {}
+    for g in _filtered(sym_groups)(tier, seed):
+        if g["header"] != "reduce_sym.h":
+            continue
+        isa, szs = g["key"].split("/"); sz = int(szs[2:]); V = lanes(isa, sz)
+        kinds = {}
+        for c in g["calls"]:
+            m = re.match(r"RED_CASE\(Sym\d, (\d+), (\w+),", c) or re.match(r"rs::run_(inner)<Sym\d,(\d+),", c)
+            if not m:
+                continue
+            n, k = (int(m.group(1)), m.group(2)) if c.startswith("RED") else (int(m.group(2)), "INNER")
+            kinds.setdefault(k, set()).add(n)
+        allsizes = set().union(*kinds.values()) if kinds else set()
+        stages = sorted(set(u for n in kinds.get("NORM", ()) for u in ((8, 4, 2, 1) if isa == "avx512" else (4, 2, 1)) if n >= u * V))
+        cov[g["key"]] = {"V": V, "sizes_per_kind": {k: len(v) for k, v in kinds.items()}, "max_size": max(allsizes) if allsizes else 0,
+                         "residues_mod_V_hit": len(set(n % V for n in allsizes)), "residues_mod_V_total": V,
+                         "norm_ladder_stages_entered": stages,
+                         "single_vs_ladder_overloads": {"norm_single": sum(1 for n in kinds.get("NORM", ()) if n <= 4 * V),
+                                                        "norm_ladder": sum(1 for n in kinds.get("NORM", ()) if n > 8 * V),
+                                                        "inner_single": sum(1 for n in kinds.get("INNER", ()) if n <= 4 * V),
+                                                        "inner_ladder": sum(1 for n in kinds.get("INNER", ()) if n > 4 * V)}}
+    return cov
+
 def run(tier, seed):
     seeds = extract_seeds()
     return flow.standard_run(
@@ -287,7 +314,9 @@ def run(tier, seed):
              "minmax cases: (cfg, T, op, form, seed, data vector) on the real element types compared with the model's result; pred: all 2^n masks; "
              "non-trivial = the vector body runs at least once or the case is a min/max/predicate/determinant case",
         nontrivial=lambda inp, mo: ("LV=0" not in mo) or not inp.startswith("reduce") or "k=det" in inp,
-        extra_cov={"seeds_from_source": seeds}, ofail_key=ofail_key, per_tu=60)
+        extra_cov={"seeds_from_source": seeds, "box": static_coverage(tier, seed),
+                   "horizontal_helpers": {k: v for k, v in extract_helpers().items()}},
+        ofail_key=ofail_key, per_tu=60)
 
 def sym_call_of(inp):
     d = symrun.kv(inp)
